@@ -362,6 +362,27 @@ class Tok:
     def __bool__(self):
         raise TypeError('truth value of payload token %s' % self.op)
 
+    # a comparison of a payload VALUE with a number (`increment['dt'] == 0`) is a test on the data:
+    # one symbolic boolean per distinct (operand, number), both outcomes explored by the path
+    # executor. Comparisons with anything else keep identity semantics.
+    def _data_test(self, what, o):
+        ex = paths.CUR
+        if ex is None or not getattr(ex, 'active', False):
+            raise TypeError('comparison of payload token %s with a number outside a path executor' % self.op)
+        k = mk(what, self.key(), repr(o))
+        return ex.decide(z3.Bool('data_%s_%d' % (what, abs(hash(repr(k))) % (10 ** 12))))
+
+    def __eq__(self, o):
+        if isinstance(o, (int, float)) and not isinstance(o, bool):
+            return self._data_test('eq', float(o))
+        return self is o
+
+    def __ne__(self, o):
+        if isinstance(o, (int, float)) and not isinstance(o, bool):
+            return not self._data_test('eq', float(o))
+        return self is not o
+    __hash__ = object.__hash__
+
 
 def _sublen(n, k):
     if n is None:
